@@ -5,7 +5,7 @@
 From Coq Require Import List Arith ZArith Bool Lia.
 From Verif Require Import c15.Lts c15.Model c15.Spec c15.Proofs c15.Proofs_Chan c15.Proofs_Loc c15.Proofs_List c15.Proofs_Safe
   c15.Proofs_Init c15.Proofs_Live c15.Proofs_Pend c15.Proofs_Idx c15.Proofs_Dead c15.Proofs_Prog c15.Proofs_Valid c15.Proofs_WildOK
-  c15.Proofs_Once c15.Proofs_First c15.Proofs_Blk c15.Proofs_Obs c15.Proofs_Loc3 c15.Proofs_WSI c15.Proofs_TY.
+  c15.Proofs_Once c15.Proofs_First c15.Proofs_Blk c15.Proofs_Obs c15.Proofs_Loc3 c15.Proofs_WSI c15.Proofs_TY c15.Proofs_Rej.
 Import ListNotations.
 
 Definition wf_init (st : state) : Prop := fresh_init st /\ nodup_types st.
@@ -33,9 +33,9 @@ Qed.
 Lemma tstat_1 : forall tr t, o_started tr t && negb (o_returned tr t) = true -> tstat tr t = 1.
 Proof. intros tr t H. apply andb_true_iff in H. destruct H as [A B]. unfold tstat. apply negb_true_iff in B. rewrite B, A. reflexivity. Qed.
 
-Lemma root_from_obs : forall st tr x c, Obs st tr -> nth_error (subs st) x = Some c -> unread_unclosed c -> o_root tr x = true.
+Lemma root_from_obs : forall st tr x c, Obs st tr -> RejI st tr -> nth_error (subs st) x = Some c -> unread_unclosed c -> styps c <> Some [] -> o_root tr x = true.
 Proof.
-  intros st tr x c O Ec [Hs [Hk [Hw Hh]]]. unfold o_root.
+  intros st tr x c O RJ Ec [Hs [Hk [Hw Hh]]] NR. unfold o_root. rewrite (not_rejected st tr x c RJ Ec NR). cbn [negb]. rewrite andb_true_r.
   pose proof (obS _ _ O x (spc c)) as S1. pose proof (obC _ _ O x (cpc c)) as C1. pose proof (obW _ _ O x (want c + length (hand c))) as W1.
   unfold xS, xC, xW in *. rewrite nth_error_map, Ec in S1, C1, W1. specialize (S1 eq_refl). specialize (C1 eq_refl). specialize (W1 eq_refl).
   rewrite Hk in C1. cbn in C1. rewrite Hw, Hh in W1. cbn in W1.
@@ -58,7 +58,7 @@ Proof.
   - apply WSV_WSI, WS.
   - apply TYV_TY, TYv.
   - apply quiescent_no_progress, Q.
-  - intros x c Ec U. eapply root_from_obs; eassumption.
+  - intros x c Ec U NR. eapply root_from_obs; try eassumption. apply rej_run.
 Qed.
 
 Lemma in_o_ops : forall o t, In t (o_ops o) ->
@@ -186,4 +186,32 @@ Lemma init_state_wf_init : forall nt sl ml el,
 Proof.
   intros nt sl ml el H. split; [apply init_state_fresh_init|]. intros c tys Hc Ht. cbn in Hc. apply in_map_iff in Hc.
   destruct Hc as [p [<- Hp]]. rewrite Forall_forall in H. specialize (H p Hp). cbn in Ht. rewrite Ht in H. exact H.
+Qed.
+
+(* ---- the rejected Subscribe call on reachable states ---------------------------------------
+   Its channel is listed nowhere - in no node's sinks, not among the wildcard sinks - so no Emit
+   and no replay goroutine ever sends to it, for every schedule. *)
+Lemma rejected_never_listed : forall st sched x c, wf_init st ->
+  nth_error (subs (run step st sched)) x = Some c -> rejected_sub c ->
+  (forall n nd, nth_error (nodes (run step st sched)) n = Some nd -> ~ In x (sinks nd)) /\
+  ~ In x (wsinks (wild (run step st sched))).
+Proof.
+  intros st sched x c H Ec R. destruct (reach_all st sched H) as [G [_ [_ TYv]]]. unfold rejected_sub in R. split.
+  - intros n nd En Hin. destruct (sink_typed _ n nd x (gL _ G) (gI _ G) (TYV_TY _ TYv) En Hin) as [c' [tys [Ec' [Et Hty]]]].
+    rewrite Ec in Ec'. inversion Ec'; subst c'. rewrite R in Et. inversion Et; subst tys. destruct Hty.
+  - intros Hin. destruct (iW1 _ (gI _ G) x Hin) as [c' [Ec' Hw]]. rewrite Ec in Ec'. inversion Ec'; subst c'. congruence.
+Qed.
+
+(* the sentence "an Emit stalls only on a subscription that is somebody's": at every quiescent point of
+   every run, an Emit that has started and not returned has a root to blame - a subscription of its type
+   (or a wildcard one) whose Subscribe call has begun and did NOT return an error, whose Close has not
+   started and whose consumer is not receiving (o_legit / o_root, the monitor's own functions) *)
+Lemma stalled_emit_has_live_root : forall st sched k, wf_init st ->
+  quiescent step thrs stim (run step st sched) = true -> In (TEmit k) (o_ops (ocfg_of_state st)) ->
+  o_started (trace step st sched) (TEmit k) = true -> o_returned (trace step st sched) (TEmit k) = false ->
+  o_legit (ocfg_of_state st) (trace step st sched) (TEmit k) = true.
+Proof.
+  intros st sched k H Q Hin S R. pose proof (rule13_accepts_model_init_l st sched H Q) as B. unfold blocked_badly in B.
+  pose proof (find_none _ _ B (TEmit k) Hin) as N. cbn beta in N. rewrite S, R in N. cbn [negb andb] in N.
+  apply negb_false_iff in N. exact N.
 Qed.
